@@ -232,6 +232,7 @@ def r18_1_guarded_divisions(ctx, rule: str = 'R18.1', rule_lit: str = 'R05.4', m
                 if div.id in ps_ and not any(isinstance(x, ast.Name) and x.id == div.id and isinstance(x.ctx, ast.Store)
                                                for x in ast.walk(f.node)):
                     k_ = ps_.index(div.id)
+                    site_classes = set()
                     for g in wm.funcs:
                         for c_ in ast.walk(g.node):
                             if isinstance(c_, ast.Call) and any(t_.qual == f.qual for t_, _ in wm.callees(g, c_)):
@@ -240,6 +241,11 @@ def r18_1_guarded_divisions(ctx, rule: str = 'R18.1', rule_lit: str = 'R05.4', m
                                     c2 = classify_expr(wm, g, arg)
                                     if c2 in ('multiplicity', 'spike-count'):
                                         cls = c2
+                                        site_classes.add(c2)
+                    if site_classes == {'multiplicity', 'spike-count'}:
+                        # one helper divides by a summed multiplicity for one caller and by a spike count for another: the two
+                        # have different conventions for "nothing to count" (1 resp. 0), a single zero branch cannot serve both
+                        cls = 'multiplicity'
             if cls in ('multiplicity', 'spike-count'):
                 t = (f"{f.name}: division by the {'summed multiplicity' if cls == 'multiplicity' else 'spike count'} "
                      f"`{dtxt}` is dominated by a zero test on that same variable")
@@ -255,7 +261,8 @@ def r18_1_guarded_divisions(ctx, rule: str = 'R18.1', rule_lit: str = 'R05.4', m
                         elif isinstance(s, ast.Constant):
                             lit = s.value
                     t2 = f"{f.name}: when `{dtxt}` is 0 (nothing to count) the result is the conventional literal"
-                    want_one = 'sync' in f.module or 'Discrete' in f.module or 'order' in f.name
+                    want_one = 'sync' in f.module or 'Discrete' in f.module or 'order' in f.name or \
+                        (cls == 'multiplicity' and f.name.startswith('_'))
                     if lit is not None and (not want_one or lit in (1, 1.0)):
                         obs.append(ok(rule_lit, t2, f.loc(gnode), construct=f"{fn}::zero-branch::{dtxt}", detail=repr(lit)))
                     elif lit is not None:
